@@ -24,6 +24,7 @@ CLASSES = {
 }
 CONTEXTS = ['%s', '[a=%s]', '[%s]', ':is(%s)', ':not(%s)', ':has(%s)', ':lang(%s)', ':nth-child(%s)', ':-soup-contains(%s)',
             'a %s b', '[a="%s', ':is(%s', '/*%s', ':nth-child(2n+1 of %s)', "[a='%s']",
+            '[a~=%s]', '[a|="%s"]', '[a^=%s]', '[a$="%s"]', '[a*=%s]', "[a!='%s']", '[a~="%s" i]',
             '[a=b %s]', '[a="b"%s]', ':nth-child(2%s+1)', ':dir(%s)', ':%s(a)', '%s|a', '[%s|a]', ':nth-child(2n+1 %s a)']
 ALLOWED = ('SelectorSyntaxError', 'NotImplementedError')
 
